@@ -365,10 +365,7 @@ def p_options(e, flavour):
 
 
 def _valid(e, cond):
-    if isinstance(cond, bool):
-        return cond
-    s = z3.Solver(); s.set('timeout', 20000); s.add(*e.pc); s.add(z3.Not(cond))
-    return s.check() == z3.unsat
+    return e.valid(cond, 20000)
 
 
 def p_trim(e, n):
@@ -514,8 +511,7 @@ def _same(e, a, b, path, bad):
         return
     if eq is False:
         bad.append('%s: %r written, %r read' % (path, a, b)); return
-    s = z3.Solver(); s.set('timeout', 10000); s.add(*e.pc); s.add(z3.Not(eq))
-    if s.check() != z3.unsat:
+    if not e.valid(eq, 10000):
         bad.append('%s: %s written, %s read' % (path, a, b))
 
 
